@@ -1,7 +1,7 @@
 (* F3: with the PINNED TimerQueue::next() (front slot only; None when the front slot has no
    entries) the wake-up invariant fails: a timer is live, no wake-up is scheduled, the run ends. *)
 From Coq Require Import List NArith.
-From DesVerif Require Import Timer.Driver Timer.QueueLemmas Timer.Inv Timer.Exact.
+From DesVerif Require Import Timer.Driver Timer.QueueLemmas Timer.Inv Timer.Exact Timer.Futures Timer.FutureLaws Timer.Model.
 Import ListNotations.
 Open Scope N_scope.
 
@@ -31,4 +31,27 @@ Proof.
   exists [EOther 0 [Register 1 5; DropEntry 1 5; Register 2 10]].
   vm_compute. split; [reflexivity|]. split; [|reflexivity].
   exists [2]. split; [right; left; reflexivity|left; reflexivity].
+Qed.
+
+(* The code before commit 5af9a5f never refreshed the waker stored with a timer entry: a Sleep
+   polled by task 0 and then polled (awaited) by task 1 is still woken through task 0. *)
+Lemma C05_pinned_waker_refuted :
+  exists polls s, handle s = None /\ Forall (fun p => fst p < deadline s) polls /\
+    waker_of (snd (poll_seq true polls s new_driver [])) (sid s) = Some 1%nat /\
+    waker_of (snd (poll_seq false polls s new_driver [])) (sid s) = Some 0%nat.
+Proof.
+  exists [(0, 0%nat); (0, 1%nat)], (sleep_new 10 7).
+  split; [reflexivity|]. split; [repeat constructor|]. vm_compute. split; reflexivity.
+Qed.
+
+(* ... in the composite model: task 0 polls a boxed sleep(10), hands it to task 1 and sleeps 30;
+   task 1 receives it at 0 and awaits it.  With the pinned behaviour the wake-up at 10 polls
+   task 0; task 1 never resumes (log [0] only, not finished, run not Ok), whereas the code as
+   it is now resumes it at exactly 10. *)
+Lemma C05_pinned_hand_over_lost :
+  exists script,
+    run_gen false script = [2; 0; 30; 1;  1; 0; 0;  0; 30] /\
+    run_gen true script = [2; 0; 30; 1;  2; 0; 10; 1;  1; 30].
+Proof.
+  exists [0; 2; 7; 0; 0; 9; 0; 10; 1; 30; 4; 0; 0; 10; 0]. vm_compute. split; reflexivity.
 Qed.
